@@ -318,6 +318,17 @@ fn scenario_pairs() -> Vec<(&'static str, &'static str, &'static str)> {
             r##"<svg><rect id="a0" wh="1"/><rect id="a1" xy="#b1|h 2" wh="1"/><rect id="a2" xy="#b2|h 2" wh="1"/><rect id="a3" xy="#b3|h 2" wh="1"/><rect id="a4" xy="#b4|h 2" wh="1"/><rect id="a5" xy="#b5|h 2" wh="1"/><rect id="a6" xy="#b6|h 2" wh="1"/><rect id="b1" xy="#a0|h 2" wh="1"/><rect id="b2" xy="#a1|h 2" wh="1"/><rect id="b3" xy="#a2|h 2" wh="1"/><rect id="b4" xy="#a3|h 2" wh="1"/><rect id="b5" xy="#a4|h 2" wh="1"/><rect id="b6" xy="#a5|h 2" wh="1"/></svg>"##),
         ("deferred-body/reference-within-pass", r##"<svg><rect wh="1"/><loop count="2"><circle cxy="#b@c" r="1"/><rect id="b" xy="^|v 5" wh="6"/></loop></svg>"##,
             r##"<svg><rect wh="1"/><circle cxy="#b@c" r="1"/><rect id="b" xy="^|v 5" wh="6"/><circle cxy="#b@c" r="1"/><rect id="b" xy="^|v 5" wh="6"/></svg>"##),
+        // fifth review round
+        ("empty-clip-path/if-false", r##"<svg><clipPath id="c"><if test="0"><rect wh="5"/></if></clipPath><rect wh="20" clip-path="url(#c)"/><rect xy="30 0" wh="2"/></svg>"##,
+            r##"<svg><clipPath id="c"></clipPath><rect wh="20" clip-path="url(#c)"/><rect xy="30 0" wh="2"/></svg>"##),
+        ("empty-clip-path/loop-zero", r##"<svg><clipPath id="c"><loop count="0"><rect wh="5"/></loop></clipPath><rect wh="20" clip-path="url(#c)"/><rect xy="30 0" wh="2"/></svg>"##,
+            r##"<svg><clipPath id="c"></clipPath><rect wh="20" clip-path="url(#c)"/><rect xy="30 0" wh="2"/></svg>"##),
+        ("word-break-after-empty-control/if-false", "<svg><text xy=\"0\"><tspan>p</tspan><if test=\"0\"><tspan>x</tspan></if>\n<tspan>q</tspan></text></svg>",
+            "<svg><text xy=\"0\"><tspan>p</tspan>\n<tspan>q</tspan></text></svg>"),
+        ("fractional-step/sixteenth", r##"<svg><loop count="3" loop-var="i" step="0.0625"><rect xy="{{$i * 160}} 0" wh="5"/></loop></svg>"##,
+            r##"<svg><rect xy="{{0 * 160}} 0" wh="5"/><rect xy="{{0.0625 * 160}} 0" wh="5"/><rect xy="{{0.125 * 160}} 0" wh="5"/></svg>"##),
+        ("fractional-step/for-items", r##"<svg><for data="0.0625, 0.0004" var="v"><rect xy="{{$v * 10000}} 0" wh="5"/></for></svg>"##,
+            r##"<svg><rect xy="{{0.0625 * 10000}} 0" wh="5"/><rect xy="{{0.0004 * 10000}} 0" wh="5"/></svg>"##),
     ]
 }
 
